@@ -95,6 +95,42 @@ def linalg_stream(ctx, quick):
             ctx.disagree(f"C20:inv:n{n}:{'big' if b >= 64 else 'small'}", desc, ai[:200], i[1:3] if i[0] != "ok" else np.asarray(i[1]).tolist()[:2], replay=[desc])
 
 
+def scaled_batches(ctx, n):
+    """regular matrices of small overall scale (determinants far below the absolute tolerance, but exactly invertible) and stacks
+    with two batch axes, on both sides of the 64-matrix threshold: det / adjugate / inv against the exact values of the
+    unscaled integer matrices (adj(sA) = s^(n-1) adj A, inv(sA) = inv(A) / s)"""
+    import geometer.utils as gu
+    rng = ctx.rng
+    for k in range(n):
+        nn = rng.choice([2, 3, 4])
+        shape = rng.choice([(64,), (70,), (8, 8), (4, 16), (3, 5), (63,)])
+        scale = rng.choice([1.0, 1e-3, 1e-5, 0.5])
+        cnt = int(np.prod(shape))
+        mats = []
+        while len(mats) < cnt:
+            m = np.array([[rng.randint(-3, 3) for _ in range(nn)] for _ in range(nn)])
+            if abs(round(np.linalg.det(m))) >= 1:
+                mats.append(m)
+        M = np.array(mats, dtype=float).reshape(shape + (nn, nn))
+        A = M * scale
+        desc = f"scaled batch n={nn} shape={shape} scale={scale} first={mats[0].tolist()}"
+        ctx.case(desc)
+        ctx.count(f"scaled:{len(shape)}axes:{'small' if scale < 0.1 else 'unit'}:{'big' if cnt >= 64 else 'small'}")
+        exact_inv = np.array([np.linalg.inv(m) for m in mats]).reshape(shape + (nn, nn)) / scale
+        i = call_impl(gu.inv, A)
+        if i[0] != "ok" or not np.allclose(i[1], exact_inv, rtol=1e-7, atol=1e-9 / scale):
+            ctx.disagree(f"C20:inv:scaled:{len(shape)}axes", desc, "inverse of every (regular) matrix", i[1:3] if i[0] != "ok" else "values differ", replay=[desc])
+        a = call_impl(gu.adjugate, A)
+        if a[0] == "ok":
+            lhs = np.matmul(A, a[1])
+            d = np.linalg.det(A)
+            rhs = d[..., None, None] * np.eye(nn)
+            if not np.allclose(lhs, rhs, rtol=1e-7, atol=1e-9 * scale ** nn):
+                ctx.disagree(f"C20:adjugate:scaled:{len(shape)}axes", desc, "A adj(A) = det(A) I at every position", "violated", replay=[desc])
+        else:
+            ctx.disagree(f"C20:adjugate:scaled:error", desc, "adjugate", a[1:3], replay=[desc])
+
+
 def svd_stream(ctx, n):
     import geometer.utils as gu
     rng = ctx.rng
@@ -270,6 +306,7 @@ def correspondence(ctx):
     if ctx.tier == "thorough":
         for _ in range(4):
             linalg_stream(ctx, False)
+    scaled_batches(ctx, ctx.budget(24, 300))
     svd_stream(ctx, ctx.budget(120, 2000))
     roots_stream(ctx, ctx.budget(250, 4000))
     ismultiple_stream(ctx, ctx.budget(150, 2000))
